@@ -233,6 +233,16 @@ class Norm:
         if 'cv' in n and isinstance(n['cv'], int):
             return n['cv']
         k = n['k']
+        if self.assume and not self._in_assume and _type(n) == 'bool' and k in ('CallExpr', 'CXXMemberCallExpr', 'DeclRefExpr', 'MemberExpr'):
+            self._in_assume = True
+            try:
+                at = self.atom(n)
+            finally:
+                self._in_assume = False
+            if at == TAUT:
+                return 1
+            if at == FALSE:
+                return 0
         if k == 'ConditionalOperator':
             c, a, b = kids(n)
             cv = self.cval(c)
@@ -392,6 +402,10 @@ class Norm:
             return None if a is None else ({key: -v for key, v in a[0].items()}, -a[1])
         if k == 'UnaryOperator' and op == '+':
             return self.linear(kids(m)[0])
+        if k == 'ConditionalOperator':
+            cv = self.cval(kids(m)[0])
+            if cv is not None:
+                return self.linear(kids(m)[1] if cv else kids(m)[2])
         return ({self.s(m, _nolin=True): 1}, 0)
 
     def s(self, n, _nolin=False):
@@ -641,6 +655,12 @@ def atom_value(a, val):
     if a == FALSE:
         return False
     k = a[0]
+    if a in val:
+        return bool(val[a])
+    if k == 'ne' and ('eq',) + tuple(a[1:]) in val:
+        return not val[('eq',) + tuple(a[1:])]
+    if k == 'truthy' and ('truthy', a[1], not a[2]) in val:
+        return not val[('truthy', a[1], not a[2])]
     if k == 'in':
         if a[1] not in val:
             raise Unknown(a[1])
@@ -667,6 +687,38 @@ def atom_value(a, val):
             raise Unknown(a[1] if a[1] not in val else a[2])
         return val[a[1]] < val[a[2]] if k == '<' else val[a[1]] <= val[a[2]]
     raise Unknown(str(a))
+
+
+def decision(f, val, nm=None):
+    """the return statement a function built from declarations, if/else and returns reaches under a valuation of its
+    condition atoms; returns the ReturnStmt node. Raises Unknown (an atom without a value, another kind of statement)."""
+    nm = nm or Norm(f)
+
+    def run(stmts):
+        for st in stmts:
+            if st is None or st.get('mac') in ('assert', 'ASSERT', 'ASSERT_WITH_MSG'):
+                continue
+            k = st['k']
+            if k == 'ReturnStmt':
+                return st
+            if k == 'CompoundStmt':
+                r = run(kids(st))
+                if r is not None:
+                    return r
+            elif k == 'IfStmt':
+                ks = kids(st)
+                c = cond_value(nm, ks[0], val)
+                br = ks[1] if c else (ks[2] if len(ks) > 2 else None)
+                if br is not None:
+                    r = run([br])
+                    if r is not None:
+                        return r
+            elif k in ('DeclStmt', 'NullStmt') or (k in ('CallExpr', 'CXXMemberCallExpr')):
+                continue
+            else:
+                raise Unknown('statement %s' % k)
+        return None
+    return run(kids(f.body))
 
 
 def cond_value(nm, node, val):
